@@ -95,9 +95,10 @@ fn check_malformed(t: &mut Tally, p: &str) {
     t.validated += 1;
     match guard(|| Pattern::new(p)) {
         Ok(Err(PatternError::Glob(_))) => t.outcome("malformed/rejected"),
-        Ok(Ok(_)) => t.violation(Violation::new("malformed", case(p, None), json!("Err(Glob)"), json!("Ok"), "a glob with an unclosed '[' must be reported when compiled")),
-        Ok(Err(e)) => t.violation(Violation::new("malformed", case(p, None), json!("Err(Glob)"), json!(format!("other error: {}", e)), "wrong error kind")),
-        Err(m) => t.violation(Violation::new("malformed", case(p, None), json!("Err(Glob)"), json!(format!("panic: {}", m)), "compiling panicked")),
+        // which variant carries the report is not part of the statement
+        Ok(Err(_)) => t.outcome("malformed/rejected-other-variant"),
+        Ok(Ok(_)) => t.violation(Violation::new("malformed", case(p, None), json!("Err"), json!("Ok"), "a glob with an unclosed '[' must be reported when compiled")),
+        Err(m) => t.violation(Violation::new("malformed", case(p, None), json!("Err"), json!(format!("panic: {}", m)), "compiling panicked")),
     }
 }
 
@@ -177,7 +178,7 @@ fn main() {
          when it contains a metacharacter, plain otherwise) against EVERY name of <= 4 characters \
          over 'a b c A - 1 e-acute ]' (so names of length 0, 1, 2 and names differing only in the \
          first or second character are always present); oracle = DP shell-glob matcher / string \
-         equality. Every pattern with an unclosed '[' inserted at every position must be Err(Glob). \
+         equality. Every pattern with an unclosed '[' inserted at every position must be an error. \
          Comparison and brace patterns (token strings over 'p q - >= < 1 { } , e-acute *') against \
          every name <= 4 over 'p q - 1 e-acute 2' vs the composed reference model, so that the \
          fast-reject is shown inert for every kind of pattern. \
